@@ -9,6 +9,7 @@ import (
 	"io"
 	"net/http"
 	"net/http/httptest"
+	"strings"
 	"sync"
 	"time"
 
@@ -20,13 +21,13 @@ import (
 // ncsRecorder is the harness-owned credit-service endpoint (natively an HTTP server; under the engine the
 // ncsclient stub records the posts).
 type ncsRecorder struct {
-	mu    sync.Mutex
-	posts []ncsclient.ReceiptPayload
-	fail  map[int]bool // requests (by arrival order) that are received and then fail
-	hold  map[int]bool // requests that are received but not answered before release is closed
+	mu      sync.Mutex
+	posts   []ncsclient.ReceiptPayload
+	fail    map[int]bool // requests (by arrival order) that are received and then fail
+	hold    map[int]bool // requests that are received but not answered before release is closed
 	release chan struct{}
-	srv   *httptest.Server
-	url   string
+	srv     *httptest.Server
+	url     string
 }
 
 func newNCSRecorder() *ncsRecorder {
@@ -210,7 +211,6 @@ func hashCase(hc int) string {
 	return "hash_byte_flipped"
 }
 
-
 // VerifC19Bursts: two bursts of two well-formed receipts each; the credit service receives the first request
 // and keeps the forwarding goroutine waiting while the second burst is verified and forwarded; then it answers.
 // Every receipt reaches the service exactly once, unchanged.
@@ -233,16 +233,48 @@ func VerifC19Bursts() {
 	rh.HandleReceipts(ctx)
 	verifnd.Quiesce()
 	if !verifnd.Symbolic() {
-		time.Sleep(200 * time.Millisecond)
+		// natively: wait until the service holds the first request
+		for i := 0; i < 400; i++ {
+			rec.mu.Lock()
+			n := len(rec.posts)
+			rec.mu.Unlock()
+			if n >= 1 {
+				break
+			}
+			time.Sleep(10 * time.Millisecond)
+		}
+		time.Sleep(100 * time.Millisecond)
 	}
+	// the second burst starts with a malformed receipt (natively a very long one, so that the verifying goroutine
+	// is still busy hashing it when the two well-formed ones are queued behind it)
+	badText := "malformed"
+	if !verifnd.Symbolic() {
+		badText = strings.Repeat("x", 48<<20)
+	}
+	// its hash is the digest with one byte flipped (a structured corruption the engine's byte model decides)
+	bad := ncsclient.ReceiptPayload{Receipt: badText, Hash: verifnd.CorruptBytes(crypto.Keccak256Hash([]byte(badText)).Bytes(), 2), Signature: []byte{4}}
+	ch <- bad
 	ch <- mk(texts[2])
 	ch <- mk(texts[3])
 	verifnd.Quiesce()
 	if !verifnd.Symbolic() {
-		time.Sleep(200 * time.Millisecond)
+		time.Sleep(2500 * time.Millisecond)
 	}
 	rec.releaseAll()
 	verifnd.Quiesce()
+	if !verifnd.Symbolic() {
+		// natively: give the pipeline time to deliver everything it is going to deliver
+		for i := 0; i < 800; i++ {
+			rec.mu.Lock()
+			n := len(rec.posts)
+			rec.mu.Unlock()
+			if n >= len(texts) {
+				break
+			}
+			time.Sleep(10 * time.Millisecond)
+		}
+		time.Sleep(300 * time.Millisecond)
+	}
 	got := rec.recorded()
 	for _, t := range texts {
 		n := 0
